@@ -19,6 +19,28 @@
 // local
 #include "romea_core_common/containers/grid/RayTracing.hpp"
 
+namespace
+{
+
+// Crossing parameters seen by next(): an axis whose index has already reached the end cell is
+// taken out of the comparison (until every axis has), so that a rounding error in rayTMax_
+// can neither carry the traversal past the end indexes and out of the grid nor make it miss
+// the end cell.
+template<typename PointType, typename CellIndexes>
+PointType maskReachedAxes(PointType tMax, const CellIndexes & cell, const CellIndexes & end)
+{
+  if ((cell.array() != end.array()).any()) {
+    for (int i = 0; i < tMax.size(); ++i) {
+      if (cell[i] == end[i]) {
+        tMax[i] = std::numeric_limits<typename PointType::Scalar>::infinity();
+      }
+    }
+  }
+  return tMax;
+}
+
+}  // namespace
+
 namespace romea
 {
 namespace core
@@ -191,7 +213,8 @@ void RayCasting<float, 2>::next(CellIndexes & cellIndexes)
 {
   // find minimum rayTMax_
   // increment current position
-  if (rayTMax_[0] < rayTMax_[1]) {
+  const PointType tMax = maskReachedAxes(rayTMax_, cellIndexes, rayEndIndexes_);
+  if (tMax[0] < tMax[1]) {
     cellIndexes[0] += rayStep_[0];
     rayTMax_[0] += rayTDelta_[0];
   } else {
@@ -205,7 +228,8 @@ void RayCasting<double, 2>::next(CellIndexes & cellIndexes)
 {
   // find minimum rayTMax_
   // increment current position
-  if (rayTMax_[0] < rayTMax_[1]) {
+  const PointType tMax = maskReachedAxes(rayTMax_, cellIndexes, rayEndIndexes_);
+  if (tMax[0] < tMax[1]) {
     cellIndexes[0] += rayStep_[0];
     rayTMax_[0] += rayTDelta_[0];
   } else {
@@ -218,8 +242,9 @@ template<>
 void RayCasting<float, 3>::next(CellIndexes & cellIndexes)
 {
   // find minimum tMax:
-  if (rayTMax_[0] < rayTMax_[1]) {
-    if (rayTMax_[0] < rayTMax_[2]) {
+  const PointType tMax = maskReachedAxes(rayTMax_, cellIndexes, rayEndIndexes_);
+  if (tMax[0] < tMax[1]) {
+    if (tMax[0] < tMax[2]) {
       cellIndexes[0] += rayStep_[0];
       rayTMax_[0] += rayTDelta_[0];
     } else {
@@ -227,7 +252,7 @@ void RayCasting<float, 3>::next(CellIndexes & cellIndexes)
       rayTMax_[2] += rayTDelta_[2];
     }
   } else {
-    if (rayTMax_[1] < rayTMax_[2]) {
+    if (tMax[1] < tMax[2]) {
       cellIndexes[1] += rayStep_[1];
       rayTMax_[1] += rayTDelta_[1];
     } else {
@@ -241,8 +266,9 @@ template<>
 void RayCasting<double, 3>::next(CellIndexes & cellIndexes)
 {
   // find minimum tMax:
-  if (rayTMax_[0] < rayTMax_[1]) {
-    if (rayTMax_[0] < rayTMax_[2]) {
+  const PointType tMax = maskReachedAxes(rayTMax_, cellIndexes, rayEndIndexes_);
+  if (tMax[0] < tMax[1]) {
+    if (tMax[0] < tMax[2]) {
       cellIndexes[0] += rayStep_[0];
       rayTMax_[0] += rayTDelta_[0];
     } else {
@@ -250,7 +276,7 @@ void RayCasting<double, 3>::next(CellIndexes & cellIndexes)
       rayTMax_[2] += rayTDelta_[2];
     }
   } else {
-    if (rayTMax_[1] < rayTMax_[2]) {
+    if (tMax[1] < tMax[2]) {
       cellIndexes[1] += rayStep_[1];
       rayTMax_[1] += rayTDelta_[1];
     } else {
